@@ -470,7 +470,7 @@ def run(ctx):
         if gen.inline_containers(schema):
             # aimed: mark runs that continue from the text in front of an inline node with content over the node itself into
             # the text inside it and on behind it; ranges that cover the node, cut into it, or lie inside it
-            for _ in range(ctx.budget(8, 16) if aimed_ic else ctx.budget(1, 3)):
+            for _ in range(ctx.budget(5, 12) if aimed_ic else ctx.budget(1, 3)):
                 case = gen.gen_inline_container_case(rng, schema)
                 if case is None:
                     break
